@@ -1,6 +1,7 @@
 package mp4
 
 import (
+	"fmt"
 	"encoding/binary"
 	"io"
 
@@ -72,6 +73,9 @@ func DecodeStyp(hdr BoxHeader, startPos uint64, r io.Reader) (Box, error) {
 
 // DecodeStypSR - box-specific decode
 func DecodeStypSR(hdr BoxHeader, startPos uint64, sr bits.SliceReader) (Box, error) {
+	if hdr.payloadLen() < 8 {
+		return nil, fmt.Errorf("styp: payload size %d less than 8 (major brand and minor version)", hdr.payloadLen())
+	}
 	b := StypBox{data: sr.ReadBytes(int(hdr.Size) - hdr.Hdrlen)}
 	return &b, sr.AccError()
 }
